@@ -116,7 +116,7 @@ func runC19(p *Program, r *Report) {
 	for _, m := range []struct {
 		r string
 		n int
-	}{{"C19.R1", 2}, {"C19.R2", 2}, {"C19.R3", 18}, {"C19.R4", 11}, {"C19.R5", 30}, {"C19.R6", 3}, {"C19.R7", 3}, {"C19.R8", 25}, {"C19.R9", 20}, {"C19.R10", 1}, {"C19.R11", 2}} {
+	}{{"C19.R1", 2}, {"C19.R2", 2}, {"C19.R3", 18}, {"C19.R4", 11}, {"C19.R5", 30}, {"C19.R6", 3}, {"C19.R7", 3}, {"C19.R8", 25}, {"C19.R9", 20}, {"C19.R10", 1}, {"C19.R11", 1}} {
 		r.Min(m.r, m.n)
 	}
 	checkSafeTypeConvertibility(p, r)
